@@ -1394,6 +1394,7 @@ Require Verif.Tie.Loops.Pypi.
 Require Verif.Tie.Loops.Rpm.
 Require Verif.Tie.Loops.RpmRange.
 Require Verif.Tie.Loops.Semver.
+Require Verif.Tie.Parse.Conan.
 Definition C20_tie_alpine_compareInt := Verif.Tie.Alpine.tie_alpine_compareInt.
 Print Assumptions C20_tie_alpine_compareInt.
 Definition C20_tie_alpine_compareLetters := Verif.Tie.Alpine.tie_alpine_compareLetters.
@@ -1748,4 +1749,8 @@ Definition C20_tie_loops_semver_comparePrerelease := Verif.Tie.Loops.Semver.tie_
 Print Assumptions C20_tie_loops_semver_comparePrerelease.
 Definition C20_tie_semver_compare_closed := Verif.Tie.Loops.Semver.tie_semver_compare_closed.
 Print Assumptions C20_tie_semver_compare_closed.
+Definition C20_tie_newversion_matched := Verif.Tie.Parse.Conan.newversion_matched.
+Print Assumptions C20_tie_newversion_matched.
+Definition C20_tie_newversion_unmatched := Verif.Tie.Parse.Conan.newversion_unmatched.
+Print Assumptions C20_tie_newversion_unmatched.
 (* ====== ties to the source: END ====== *)
